@@ -318,29 +318,40 @@ def main():
     except Exception:
         base = None
     unstable = []
-    if base and new_viol and base.get('context') == ctx_sha and base.get('headers') == hdr_sha:
-        same = [r for r in new_viol if base.get('units', {}).get(r['unit']) == unit_sha.get(r['unit'])]
+    retried = []
+    if new_viol:
+        # (a) a proof found under ANY solver seed is a proof: every unit with a failed obligation is re-checked with other seeds, and a unit that verifies completely
+        #     under one of them is discharged (a genuine violation fails under every seed);
+        # (b) what still fails in a unit whose text and context are identical to the proved baseline is solver instability, not a violation.
+        still = set(r['unit'] for r in new_viol)
+        first_failed = set(still)
+        tried = []
+        for sd in (7, 1234, 99):
+            r2 = core.run_verus(path, rlimit=rlimit, extra=list(meta.get('verus_args', ())) + ['--smt-option', 'smt.random_seed=%d' % sd])
+            if r2['json'] is None or 'verification-results' not in (r2['json'] or {}):
+                continue
+            tried.append(sd)
+            failing = set()
+            for e2 in r2['errors']:
+                if core.classify(e2['msg']) in ('obligation', 'rlimit'):
+                    for ln in [e2['line']] + list(e2['spans']):
+                        k2, n2, m2, f2 = asm.locate(ln)
+                        if k2 == 'unit':
+                            failing.add(n2)
+            still &= failing
+            if not still:
+                break
+        retried = [dict(unit=u, seeds=tried, discharged_on_retry=(u not in still)) for u in sorted(first_failed)]
+        new_viol = [r for r in new_viol if r['unit'] in still]
+        same_ctx = bool(base) and base.get('context') == ctx_sha and base.get('headers') == hdr_sha
+        same = [r for r in new_viol if same_ctx and base.get('units', {}).get(r['unit']) == unit_sha.get(r['unit'])]
         if same:
-            still = set(r['unit'] for r in same)
-            tried = []
-            for sd in (7, 1234, 99):
-                r2 = core.run_verus(path, rlimit=rlimit, extra=list(meta.get('verus_args', ())) + ['--smt-option', 'smt.random_seed=%d' % sd])
-                tried.append(sd)
-                failing = set()
-                for e2 in r2['errors']:
-                    if core.classify(e2['msg']) in ('obligation', 'rlimit'):
-                        for ln in [e2['line']] + list(e2['spans']):
-                            k2, n2, m2, f2 = asm.locate(ln)
-                            if k2 == 'unit':
-                                failing.add(n2)
-                still &= failing
-                if not still:
-                    break
-            unstable = [dict(unit=r['unit'], clause=r['clause'][:200], retried_seeds=tried, persisted=(r['unit'] in still)) for r in same]
+            unstable = [dict(unit=r['unit'], clause=r['clause'][:200], retried_seeds=tried, persisted=True) for r in same]
             new_viol = [r for r in new_viol if r not in same]
-            if still and not new_viol:
-                print('unstable proof (unit text and context identical to the proved baseline): %s' % ', '.join(sorted(still)))
-                return undecided('unstable-proof:%s' % sorted(still)[0], '\n'.join('%s :: %s' % (u['unit'], u['clause']) for u in unstable))
+            if not new_viol:
+                names = sorted(set(r['unit'] for r in same))
+                print('unstable proof (unit text and context identical to the proved baseline): %s' % ', '.join(names))
+                return undecided('unstable-proof:%s' % names[0], '\n'.join('%s :: %s' % (u['unit'], u['clause']) for u in unstable))
 
     trusted = meta.get('trusted_base', [])
     assumptions = meta.get('assumptions', [])
@@ -355,7 +366,7 @@ def main():
         pass
     slow = sorted(fb, key=lambda x: -x.get('time', 0))[:5]
     ev['coverage'] = dict(
-        obligations=obligations, discharged=discharged + len(set(u['unit'] for u in unstable if not u['persisted'])),
+        obligations=obligations, discharged=discharged + len([u for u in retried if u['discharged_on_retry']]),
         obligations_explained='Verus verification items (functions whose full set of proof obligations - postconditions, loop invariants, callee preconditions incl. unwrap/index/overflow, termination - is sent to Z3); vacuity guards excluded',
         checker_cmd=res['cmd'].replace(VERIF, '/verif'),
         backend='verus 0.2026.09.13 / Z3',
@@ -370,7 +381,7 @@ def main():
         solver_time_ms=smt_ms, slowest=[dict(function=s['function'], ms=s['time'], rlimit=s.get('rlimit')) for s in slow],
         samples=samples,
         known_findings_hit=[dict(unit=k['unit'], what=k['what']) for k, r in known_hit],
-        unstable_proofs=unstable,
+        unstable_proofs=unstable, retried_with_other_seeds=retried,
         bounded_checks=meta.get('bounded_checks', []),
         not_covered=meta.get('not_covered', []),
         repo=core.REPO,
